@@ -117,6 +117,18 @@ CLASSIFIERS = {"node_type_lt": cls_node_type_lt, "nan_payload": cls_nan_payload,
                "anchor_zone_seconds": cls_anchor_zone_seconds}
 
 
+def norm_anchors(v):
+    """F24: an anchor whose zone offset has seconds is printed in UTC, so it comes back as the same instant with offset 0
+    (C05_predicate_zone_seconds_partial); every other anchor comes back unchanged"""
+    if isinstance(v, dict):
+        if set(v.keys()) == {"ns", "off"} and int(v["off"]) % 60 != 0:
+            return {"ns": v["ns"], "off": 0}
+        return {k: norm_anchors(x) for k, x in v.items()}
+    if isinstance(v, list):
+        return [norm_anchors(x) for x in v]
+    return v
+
+
 def failures_of(r):
     out = []
     if r["kind"] == "value" and r.get("src") == "second-pass":
@@ -126,7 +138,7 @@ def failures_of(r):
     if r["kind"] == "value" and r.get("src") in ("generated", "corpus"):
         if r.get("printpanic"):
             return [{"class": "print-panic", "vk": r["vk"]}]
-        ok = r["parsed"]["c"] == "ok" and r["parsed"]["v"] == r["v"] and r.get("retext") == r["text"]
+        ok = r["parsed"]["c"] == "ok" and r["parsed"]["v"] == norm_anchors(r["v"]) and r.get("retext") == r["text"]
         if not ok:
             out.append({"class": "roundtrip", "vk": r["vk"], "value": r["v"], "printed": vc.show(r["text"]), "reparsed": r["parsed"],
                         "reprinted": vc.show(r["retext"]) if r.get("retext") else None, "name": r.get("name")})
